@@ -20,6 +20,7 @@ import (
 
 	aggsync "github.com/agglayer/aggkit/sync"
 	aggkittypes "github.com/agglayer/aggkit/types"
+	"github.com/ethereum/go-ethereum"
 	"github.com/ethereum/go-ethereum/common"
 	"github.com/ethereum/go-ethereum/core/types"
 	"verif/h/act"
@@ -303,10 +304,18 @@ func runInBubble(c *mc.Ctx, p params) {
 		if ek := 0; errBudget > 0 {
 			// 1 = an opaque transport error, 2 = the RPC client's own per-call time-out (wraps context.DeadlineExceeded
 			// although the syncer's context is alive)
-			ek = c.Choose(3, "transient-rpc-error")
+			nk := 3
+			if g.Op == "HeaderByNumber" && g.Arg != "latest" && g.Arg != "finalized" && g.Arg != "safe" {
+				nk = 4 // 3 = "not found" for a header asked by number (the downloader waits: the block may have disappeared in a reorg)
+			}
+			ek = c.Choose(nk, "transient-rpc-error")
 			if ek > 0 {
 				errBudget--
 				dir.Err = errTransient
+				if ek == 3 {
+					dir.Err = fmt.Errorf("verif: %w", ethereum.NotFound)
+					c.Witness("rpc_not_found_injected")
+				}
 				if ek == 2 {
 					dir.Err = fmt.Errorf("verif: rpc call timed out: %w", context.DeadlineExceeded)
 					c.Witness("rpc_timeouts_injected")
@@ -398,7 +407,7 @@ func main() {
 		Assumptions: []string{
 			"the environment changes only at the RPCs that observe the changed variable (tip at tip polls, finalized pointer at finalized polls): for a chain without reorgs an earlier change is indistinguishable (partial-order reduction, argued in DESIGN C05); reorgs are C06",
 			"a WaitForNewBlocks poll that would see nothing new for ever is treated as blocked (waiting made visible); identified by its call stack",
-			"transient errors: at most one per execution, at every position, of two kinds (opaque transport error; the RPC client's per-call time-out wrapping context.DeadlineExceeded while the syncer's context is alive); retry limit disabled (the process-exit path of RetryHandler is not explored)",
+			"transient errors: at most one per execution, at every position, of three kinds (opaque transport error; not-found for a header asked by number; the RPC client's per-call time-out wrapping context.DeadlineExceeded while the syncer's context is alive); retry limit disabled (the process-exit path of RetryHandler is not explored)",
 		},
 		Bounds: func(tier string) map[string]any {
 			n := 3
